@@ -68,6 +68,8 @@ def main(tier):
             c["a_q"] = True
         if rng.random() < 0.15:
             c["layout"] = "expanded"
+        if op == "mm" and rng.random() < 0.35:
+            c["a_axis"], c["b_axis"] = rng.choice([None, 0, -1]), rng.choice([None, 0, -1])
         if rng.random() < 0.3:
             c["mag"] = rng.choice([0.05, 0.01, 20.0])  # small / large operand magnitudes: the product of the two scales leaves the float16 normal range
         cases.append(c)
@@ -83,6 +85,9 @@ def main(tier):
     # directed: broadcast (expanded, stride-0) quantized activations on the integer GEMM routes
     cases.append({"id": len(cases), "seed": 11, "op": "linear", "dtype": "float32", "act": "qint8", "wq": "qint8", "lead": [24], "in": 32, "out": 16, "bias": False, "layout": "expanded", "exact": False})
     cases.append({"id": len(cases), "seed": 12, "op": "mm", "dtype": "float32", "n": 24, "m": 32, "p": 16, "batch": 2, "aq": "qint8", "a_q": True, "b_q": True, "layout": "expanded"})
+    # directed: operands of torch.mm quantized per-axis, along the contracted and the non-contracted dimensions, on the integer GEMM sizes
+    for k, (aa, ba) in enumerate([(None, 0), (None, -1), (0, None), (-1, None), (0, -1), (-1, 0)]):
+        cases.append({"id": len(cases), "seed": 20 + k, "op": "mm", "dtype": "float32", "n": 24, "m": 24 if k % 2 == 0 else 32, "p": 16, "batch": 2, "aq": "qint8", "a_q": True, "b_q": True, "a_axis": aa, "b_axis": ba})
     # directed: float16 operands of small magnitude on the integer GEMM route of torch.mm (rows > 16, every size a multiple of 8)
     cases.append({"id": len(cases), "seed": 13, "op": "mm", "dtype": "float16", "n": 24, "m": 64, "p": 32, "batch": 2, "aq": "qint8", "a_q": True, "b_q": True, "mag": 0.05})
     cases.append({"id": len(cases), "seed": 14, "op": "mm", "dtype": "float16", "n": 64, "m": 256, "p": 128, "batch": 2, "aq": "qint8", "a_q": True, "b_q": True, "mag": 0.02})
